@@ -154,16 +154,38 @@ func pvKind(fset *token.FileSet, vs *ast.ValueSpec, i int) string {
 // the names of the types through which the renderer and the generator see shared, compiled state
 var pvSharedTypePkgs = map[string]bool{"ast": true, "template": true, "soymsg": true}
 
-func pvIsSharedType(fileDir string, e ast.Expr) bool {
+// import name -> directory of the repository package, for one file
+func pvImports(f *ast.File) map[string]string {
+	imports := map[string]string{}
+	for _, im := range f.Imports {
+		p := strings.Trim(im.Path.Value, `"`)
+		const pre = "github.com/robfig/soy"
+		if !strings.HasPrefix(p, pre) {
+			continue
+		}
+		dir := strings.TrimPrefix(strings.TrimPrefix(p, pre), "/")
+		if dir == "" {
+			dir = "."
+		}
+		name := filepath.Base(p)
+		if im.Name != nil {
+			name = im.Name.Name
+		}
+		imports[name] = dir
+	}
+	return imports
+}
+
+func pvIsSharedType(fileDir string, imports map[string]string, e ast.Expr) bool {
 	switch t := e.(type) {
 	case *ast.StarExpr:
-		return pvIsSharedType(fileDir, t.X)
+		return pvIsSharedType(fileDir, imports, t.X)
 	case *ast.ArrayType:
-		return pvIsSharedType(fileDir, t.Elt)
+		return pvIsSharedType(fileDir, imports, t.Elt)
 	case *ast.Ellipsis:
-		return pvIsSharedType(fileDir, t.Elt)
+		return pvIsSharedType(fileDir, imports, t.Elt)
 	case *ast.SelectorExpr:
-		if id, ok := t.X.(*ast.Ident); ok && pvSharedTypePkgs[id.Name] {
+		if id, ok := t.X.(*ast.Ident); ok && pvSharedTypePkgs[imports[id.Name]] {
 			return true
 		}
 	case *ast.Ident:
@@ -247,27 +269,42 @@ func (g *gen) pkgVars() {
 		return vars[i].Name < vars[j].Name
 	})
 
+	// struct fields of a shared type (per package, by name) and functions / methods whose results include a
+	// shared type (all packages, by name): s.node, s.registry.Template(name) denote shared values too
+	sharedFields := map[string]map[string]bool{}
+	sharedFuncs := map[string]bool{}
+	for _, pf := range files {
+		imports := pvImports(pf.f)
+		ast.Inspect(pf.f, func(n ast.Node) bool {
+			switch x := n.(type) {
+			case *ast.StructType:
+				for _, f := range x.Fields.List {
+					if pvIsSharedType(pf.dir, imports, f.Type) {
+						for _, nm := range f.Names {
+							if sharedFields[pf.dir] == nil {
+								sharedFields[pf.dir] = map[string]bool{}
+							}
+							sharedFields[pf.dir][nm.Name] = true
+						}
+					}
+				}
+			case *ast.FuncDecl:
+				if x.Type.Results != nil {
+					for _, r := range x.Type.Results.List {
+						if pvIsSharedType(pf.dir, imports, r.Type) {
+							sharedFuncs[x.Name.Name] = true
+						}
+					}
+				}
+			}
+			return true
+		})
+	}
+
 	// ---- write sites ----
 	var sites, methods, shared []pvSite
 	for _, pf := range files {
-		// import name -> directory of the repository package
-		imports := map[string]string{}
-		for _, im := range pf.f.Imports {
-			p := strings.Trim(im.Path.Value, `"`)
-			const pre = "github.com/robfig/soy"
-			if !strings.HasPrefix(p, pre) {
-				continue
-			}
-			dir := strings.TrimPrefix(strings.TrimPrefix(p, pre), "/")
-			if dir == "" {
-				dir = "."
-			}
-			name := filepath.Base(p)
-			if im.Name != nil {
-				name = im.Name.Name
-			}
-			imports[name] = dir
-		}
+		imports := pvImports(pf.f)
 		// is this identifier a package-level variable of the file's own package?
 		ownVar := func(id *ast.Ident) bool {
 			if !pkgVarNames[pf.dir][id.Name] {
@@ -337,7 +374,7 @@ func (g *gen) pkgVars() {
 					return
 				}
 				for _, f := range fl.List {
-					if pvIsSharedType(pf.dir, f.Type) {
+					if pvIsSharedType(pf.dir, imports, f.Type) {
 						for _, n := range f.Names {
 							if n.Obj != nil {
 								sharedName[n.Obj] = true
@@ -366,14 +403,42 @@ func (g *gen) pkgVars() {
 				case *ast.SliceExpr:
 					return sharedRooted(x.X)
 				case *ast.SelectorExpr:
-					return sharedRooted(x.X)
+					return sharedRooted(x.X) || sharedFields[pf.dir][x.Sel.Name]
 				case *ast.TypeAssertExpr:
 					return sharedRooted(x.X)
 				case *ast.CallExpr:
 					// a method of a shared value returning part of it: node.Children()
-					if se, ok := x.Fun.(*ast.SelectorExpr); ok && se.Sel.Name == "Children" {
-						return sharedRooted(se.X)
+					if se, ok := x.Fun.(*ast.SelectorExpr); ok {
+						if se.Sel.Name == "Children" && sharedRooted(se.X) {
+							return true
+						}
+						return sharedFuncs[se.Sel.Name] // s.registry.Template(name)
 					}
+					if id, ok := x.Fun.(*ast.Ident); ok && id.Obj == nil {
+						return sharedFuncs[id.Name]
+					}
+				}
+				return false
+			}
+			// does a store to the lvalue l write memory of a shared value?  (the object written is the one the
+			// BASE of l denotes: s.node = n writes s, s.node.Text = t writes the node)
+			writesThrough := func(l ast.Expr) bool {
+				for {
+					p, ok := l.(*ast.ParenExpr)
+					if !ok {
+						break
+					}
+					l = p.X
+				}
+				switch x := l.(type) {
+				case *ast.SelectorExpr:
+					return sharedRooted(x.X)
+				case *ast.IndexExpr:
+					return sharedRooted(x.X)
+				case *ast.SliceExpr:
+					return sharedRooted(x.X)
+				case *ast.StarExpr:
+					return sharedRooted(x.X)
 				}
 				return false
 			}
@@ -393,7 +458,7 @@ func (g *gen) pkgVars() {
 						}
 						// a write through a shared value: LHS is not a plain local name and is rooted at a shared name
 						if id, isId := l.(*ast.Ident); !isId {
-							if sharedRooted(l) {
+							if writesThrough(l) {
 								add(&shared, pf.dir, pvExprString(fset, l), "assign-through", st.Pos())
 							}
 						} else if id.Obj != nil && i < len(st.Rhs) && len(st.Lhs) == len(st.Rhs) {
@@ -430,7 +495,12 @@ func (g *gen) pkgVars() {
 					}
 					// two-value forms (x, ok := n.(*T)) and switch x := n.(type) are handled below
 					if trackShared && len(st.Lhs) == 2 && len(st.Rhs) == 1 {
-						if ta, ok := st.Rhs[0].(*ast.TypeAssertExpr); ok && sharedRooted(ta.X) {
+						r := st.Rhs[0]
+						if ta, ok := r.(*ast.TypeAssertExpr); ok {
+							r = ta.X
+						}
+						// x, ok := n.(*T) / x, ok := reg.Template(name) / x, ok := m[k]
+						if sharedRooted(r) {
 							if id, ok := st.Lhs[0].(*ast.Ident); ok && id.Obj != nil {
 								sharedName[id.Obj] = true
 							}
@@ -463,6 +533,16 @@ func (g *gen) pkgVars() {
 					if gd, ok := st.Decl.(*ast.GenDecl); ok && gd.Tok == token.VAR {
 						for _, s := range gd.Specs {
 							vs := s.(*ast.ValueSpec)
+							if len(vs.Names) == 2 && len(vs.Values) == 1 && vs.Names[0].Obj != nil {
+								r := vs.Values[0]
+								if ta, ok := r.(*ast.TypeAssertExpr); ok {
+									r = ta.X
+								}
+								if sharedRooted(r) {
+									sharedName[vs.Names[0].Obj] = true
+								}
+								continue
+							}
 							for i, nm := range vs.Names {
 								if nm.Obj == nil {
 									continue
@@ -492,7 +572,7 @@ func (g *gen) pkgVars() {
 						add(&sites, dir, v, "incdec", st.Pos())
 					}
 					if trackShared {
-						if _, isId := st.X.(*ast.Ident); !isId && sharedRooted(st.X) {
+						if _, isId := st.X.(*ast.Ident); !isId && writesThrough(st.X) {
 							add(&shared, pf.dir, pvExprString(fset, st.X), "incdec-through", st.Pos())
 						}
 					}
